@@ -176,7 +176,8 @@ def record_random(ctx: Ctx, ev, meta, n, alphabet, pid):
             w = [rnd.choice(pool) for _ in range(k)]
             return w
         nps = rnd.randint(0, 3)
-        names = rnd.sample(["P", "q", "Cn", "x-long-name", "ALTREP", "ENCODING", "Charset"], nps)
+        # (iana-token = 1*(ALPHA / DIGIT / "-"): a name may start with a digit or a hyphen)
+        names = rnd.sample(["P", "q", "Cn", "x-long-name", "ALTREP", "ENCODING", "Charset", "2FA-LEVEL", "-X-LEGACY", "X9", "9"], nps)
         ps = []
         for nm in names:
             if nm in ("ENCODING", "Charset"):
